@@ -19,8 +19,8 @@ def run(ctx, *, mine, designs, gens, relevant, rule, extra_traces=None, must_hit
     from concurrent.futures import ThreadPoolExecutor
 
     with ThreadPoolExecutor(max_workers=8) as ex:
-        futs = [ex.submit(project.gen, ctx, project.consts(**kw), depth, num, ctx.seed * 101 + k) for k, (kw, depth, num) in enumerate(gens)]
-        scns = [s for f in futs for s in f.result()]
+        futs = [(ex.submit(project.gen, ctx, project.consts(**g[0]), g[1], g[2], ctx.seed * 101 + k), g[3] if len(g) > 3 else {}) for k, g in enumerate(gens)]
+        scns = [dict(s, **flags) for f, flags in futs for s in f.result()]
     ctx.phase("drive %d behaviours" % len(scns))
     traces = pmap(projdrive.drive, [(i, s, ctx.seed * 7919 + i) for i, s in enumerate(scns)], chunk=2)
     if extra_traces:
